@@ -1,6 +1,8 @@
 """C17 - saving and loading simulation parameters / results loses nothing
 (JSON and pickle, strings and files, file names derived from templates)."""
+import functools
 import json
+import math
 import os
 import shutil
 import tempfile
@@ -18,7 +20,7 @@ RULE = ("Part 'params': SimulationParameters with 1..6 parameters drawn "
         "float32/float64 and - as a labelled minority - the other widths, "
         "unicode strings, nested lists, sets of hashable scalars, real arrays "
         "of 1..3 dimensions in eight dtypes, empty arrays), any subset of the "
-        "iterable parameters marked unpacked, up to 6 unpacked children; "
+        "iterable parameters marked unpacked, up to 3 unpacked children (first two, last); "
         "targets to_dict/from_dict, to_json/from_json (two generations), "
         "pickle file.  Part 'results': SimulationResults with such parameters, "
         "1..3 named results x 1..3 stored Result objects of all four types "
@@ -79,6 +81,7 @@ ARRAY_DTYPES = ("int8", "int16", "int32", "int64", "uint8", "uint64",
 # ----------------------------------------------------------------------------
 # value descriptors (plain data) and their strategies
 # ----------------------------------------------------------------------------
+@functools.lru_cache(maxsize=None)
 def _np_value(dtype, small=False):
     if dtype in _FLOAT_WIDTH:
         if small:
@@ -93,12 +96,14 @@ def _np_value(dtype, small=False):
                      st.sampled_from([lo, hi]))
 
 
+@functools.lru_cache(maxsize=None)
 def _np_scalar(dtypes, small=False):
     return st.sampled_from(dtypes).flatmap(
         lambda dt: _np_value(dt, small).map(
             lambda v: dict(t="np", dtype=dt, v=v)))
 
 
+@functools.lru_cache(maxsize=None)
 def _py_int(big=True):
     if big:
         s = st.one_of(st.integers(-2**70, 2**70), st.integers(-1000, 1000),
@@ -108,6 +113,7 @@ def _py_int(big=True):
     return s.map(lambda v: dict(t="int", v=v))
 
 
+@functools.lru_cache(maxsize=None)
 def _py_float(wide=True):
     if wide:
         s = st.one_of(
@@ -119,12 +125,14 @@ def _py_float(wide=True):
     return s.map(lambda v: dict(t="float", v=v))
 
 
+@functools.lru_cache(maxsize=None)
 def _text():
     return st.one_of(st.text(max_size=8),
                      st.text(alphabet="abcXYZ019 _-", max_size=6)).map(
                          lambda v: dict(t="str", v=v))
 
 
+@functools.lru_cache(maxsize=None)
 def _scalar(exotic):
     opts = [_py_int(), _py_float(), _np_scalar(NP_COMMON),
             _np_scalar(NP_COMMON), _text()]
@@ -133,6 +141,7 @@ def _scalar(exotic):
     return st.one_of(*opts)
 
 
+@functools.lru_cache(maxsize=None)
 def _list(exotic):
     sc = _scalar(exotic)
     inner = st.recursive(
@@ -141,13 +150,19 @@ def _list(exotic):
     return st.lists(inner, max_size=5).map(lambda v: dict(t="list", v=v))
 
 
+@functools.lru_cache(maxsize=None)
 def _set(exotic):
     return st.lists(_scalar(exotic), max_size=5).map(
         lambda v: dict(t="set", v=v))
 
 
+@functools.lru_cache(maxsize=None)
+def _array(dtypes=ARRAY_DTYPES, one_d=False, min_len=0):
+    return _array_c(dtypes, one_d, min_len)
+
+
 @st.composite
-def _array(draw, dtypes=ARRAY_DTYPES, one_d=False, min_len=0):
+def _array_c(draw, dtypes, one_d, min_len):
     dt = draw(st.sampled_from(dtypes))
     kind = draw(st.sampled_from(["1d", "1d", "2d", "3d", "empty",
                                  "zero_dim"]))
@@ -179,6 +194,7 @@ def _array(draw, dtypes=ARRAY_DTYPES, one_d=False, min_len=0):
     return dict(t="array", dtype=dt, shape=shape, v=vals)
 
 
+@functools.lru_cache(maxsize=None)
 def _value(exotic):
     return st.one_of(_scalar(exotic), _scalar(exotic), _list(exotic),
                      _set(exotic), _array(), _array())
@@ -226,13 +242,21 @@ _RNAMES = ["ber", "ser", "Count", "misc_val", "choice", "zz"]
 _TYPES = ("SUM", "RATIO", "MISC", "CHOICE")
 
 
-def _obs(typ, choice_num, exotic):
+@functools.lru_cache(maxsize=None)
+def _obs(typ, choice_num, exotic, family=None):
     if typ == "SUM":
-        opts = [_py_int(False), _py_float(False),
-                _np_scalar(NP_COMMON, small=True)]
-        if exotic:
-            opts.append(_np_scalar(NP_EXOTIC, small=True))
-        return st.tuples(st.one_of(*opts), st.none()).map(list)
+        # one numeric family per result: mixing e.g. an unsigned numpy
+        # scalar with a negative Python int is an arithmetic error of the
+        # caller, not a serialisation question
+        if family == "pyint":
+            v = _py_int(False)
+        elif family == "pyfloat":
+            v = _py_float(False)
+        elif family == "pymixed":
+            v = st.one_of(_py_int(False), _py_float(False))
+        else:
+            v = _np_scalar((family,), small=True)
+        return st.tuples(v, st.none()).map(list)
     if typ == "RATIO":
         py = st.tuples(st.integers(0, 1000).map(lambda v: dict(t="int", v=v)),
                        st.integers(1, 1000).map(lambda v: dict(t="int", v=v)))
@@ -258,7 +282,13 @@ def _result_spec(draw, name, nvar, exotic, tier):
     typ = draw(st.sampled_from(_TYPES))
     choice_num = draw(st.integers(1, 6)) if typ == "CHOICE" else None
     nmax = 6 if tier == "quick" else 12
-    hist = [draw(st.lists(_obs(typ, choice_num, exotic), min_size=1,
+    family = None
+    if typ == "SUM":
+        fams = ["pyint", "pyfloat", "pymixed"] + list(NP_COMMON)
+        if exotic:
+            fams += list(NP_EXOTIC) * 2
+        family = draw(st.sampled_from(fams))
+    hist = [draw(st.lists(_obs(typ, choice_num, exotic, family), min_size=1,
                           max_size=nmax)) for _ in range(nvar)]
     return dict(name=name, type=typ, choice_num=choice_num,
                 acc=draw(st.booleans()), create=draw(st.booleans()),
@@ -332,8 +362,8 @@ def _scalar_pair(draw):
         near = lambda d: dict(t="int", v=d["v"] + 1)            # noqa
     elif kind == "float":
         g = _py_float()
-        near = lambda d: dict(t="float", v=float(np.nextafter(  # noqa
-            d["v"], np.inf)))
+        near = lambda d: dict(t="float", v=math.nextafter(    # noqa
+            d["v"], math.inf))
     elif kind == "str":
         g = st.text(alphabet="abcXYZ019", min_size=1, max_size=8).map(
             lambda v: dict(t="str", v=v))
@@ -372,9 +402,9 @@ def _filename_case(draw, tier):
 
 
 PARTS = [
-    Part("params", _params_case, quick=1600, thorough=60000),
-    Part("results", _results_case, quick=1400, thorough=50000),
-    Part("filename", _filename_case, quick=800, thorough=30000),
+    Part("params", _params_case, quick=1600, thorough=40000),
+    Part("results", _results_case, quick=1400, thorough=35000),
+    Part("filename", _filename_case, quick=800, thorough=20000),
 ]
 
 
@@ -502,6 +532,19 @@ def _kind(x):
     return "other:" + type(x).__name__
 
 
+def _num_eq(a, b):
+    """exact comparison of two numbers of the same kind.  Not ``a == b``:
+    numpy would first round a Python float to the width of a float32 scalar
+    (np.float32(0) == 5e-324 is True)."""
+    if _kind(a) == "int":
+        return int(a) == int(b)
+    return float(a) == float(b)
+
+
+def _leaf_eq(x, y):
+    return _num_eq(x, y) if _kind(x) in ("int", "float") else x == y
+
+
 def _tname(x):
     n = type(x).__name__
     return "longdouble" if n == "float128" else n
@@ -509,7 +552,11 @@ def _tname(x):
 
 def _set_key(x):
     k = _kind(x)
-    return (k, x if k in ("int", "float") else str(x))
+    if k == "int":
+        return (k, int(x))
+    if k == "float":
+        return (k, float(x))
+    return (k, str(x))
 
 
 class Diff(object):
@@ -524,6 +571,8 @@ class Diff(object):
             path="/".join(str(p) for p in path), reason=reason,
             orig_type=_tname(a), got_type=_tname(b),
             orig=repr(a)[:80], got=repr(b)[:80],
+            orig_size0=bool(isinstance(a, np.ndarray) and a.size == 0),
+            orig_dtype=str(a.dtype) if isinstance(a, np.ndarray) else None,
             field=field[-1] if field else "", rtype=info.get("rtype"),
             racc=info.get("racc")))
 
@@ -536,8 +585,7 @@ class Diff(object):
             self.add(path, "type", a, b, info)
             return
         if ka in ("int", "float"):
-            # exact: both converted without rounding
-            if not (a == b):
+            if not _num_eq(a, b):
                 self.add(path, "value", a, b, info)
         elif ka in ("str", "bool"):
             if a != b:
@@ -549,13 +597,23 @@ class Diff(object):
             for i, (x, y) in enumerate(zip(a, b)):
                 self.walk(x, y, path + [i], info)
         elif ka == "set":
-            sa = sorted(a, key=_set_key)
-            sb = sorted(b, key=_set_key)
-            if len(sa) != len(sb):
+            if len(a) != len(b):
                 self.add(path, "length", a, b, info)
                 return
-            for i, (x, y) in enumerate(zip(sa, sb)):
-                self.walk(x, y, path + ["{%d}" % i], info)
+            # members that survived unchanged are matched first, so that one
+            # changed member is reported as exactly one difference
+            rest = sorted(b, key=_set_key)
+            left = []
+            for x in sorted(a, key=_set_key):
+                for j, y in enumerate(rest):
+                    if _kind(x) == _kind(y) and _leaf_eq(x, y) and (
+                            not self.strict or type(x) is type(y)):
+                        del rest[j]
+                        break
+                else:
+                    left.append(x)
+            for i, (x, y) in enumerate(zip(left, rest)):
+                self.walk(x, y, path + [i], info)
         elif ka == "array":
             if a.shape != b.shape:
                 self.add(path, "shape", a, b, info)
@@ -590,6 +648,11 @@ class Diff(object):
 
 
 _TYPES_BY_CODE = {0: "SUM", 1: "RATIO", 2: "MISC", 3: "CHOICE"}
+_STRUCT_FIELDS = {
+    "value_list", "total_list", "value", "total", "result_sum",
+    "result_squared_sum", "num_updates", "name", "update_type_code",
+    "accumulate_values_bool", "current_rep", "runned_reps", "unpack_index",
+    "unpacked_parameters_set", "original_filename", "original_sim_params"}
 
 
 def _priority(item):
@@ -598,6 +661,10 @@ def _priority(item):
     known = 0
     if item["orig_type"] in _FLOAT_NARROW:
         known = 1
+    elif item["reason"] == "shape" and item["orig_size0"]:
+        known = 5
+    elif item["reason"] == "kind" and item["orig_dtype"] == "uint64":
+        known = 6
     elif item["field"] == "current_rep":
         known = 2
     elif item["field"] == "value_list" and item["rtype"] == "CHOICE":
@@ -609,19 +676,74 @@ def _priority(item):
     return known
 
 
-def _compare(stage, a_img, b_img, strict, tags):
-    d = Diff(strict)
-    d.walk(a_img, b_img, [], {})
-    if d.items:
+def _exc_suspect(exc):
+    """exceptions explained by an already recorded defect sort last"""
+    t = getattr(exc, "vpbt_tags", {})
+    if isinstance(exc, TypeError) and t.get("has_unhandled_np_scalar"):
+        return 1
+    if isinstance(exc, (ValueError, IndexError, AssertionError)) and \
+            t.get("has_unnameable_array_param"):
+        return 1
+    return 0
+
+
+class Run(object):
+    """comparison stages of one case.  A difference that looks like an
+    already recorded defect (see _priority) is kept pending and raised at the
+    end, so that the later stages of the same case are still examined; any
+    other difference is raised at once."""
+    def __init__(self):
+        self.pending = []
+        self.deferred = []
+
+    def stage(self, fn, tags):
+        """run one group of targets.  A Violation propagates at once; an
+        exception raised by the library is annotated, kept and RE-RAISED by
+        finish() (never swallowed) so that the remaining, independent
+        targets of the same case are still examined."""
+        try:
+            fn()
+        except Violation:
+            raise
+        except Exception as exc:      # noqa
+            exc.vpbt_tags = dict(tags)
+            self.deferred.append(exc)
+
+    def compare(self, stage, a_img, b_img, strict, tags):
+        d = Diff(strict)
+        d.walk(a_img, b_img, [], {})
+        if not d.items:
+            return True
         it = sorted(d.items, key=_priority)[0]
-        raise Violation(stage, "%s: %s differs (%s): original %s %s, re-loaded "
-                        "%s %s [%d difference(s) in this object]" % (
-                            stage, it["path"], it["reason"], it["orig_type"],
-                            it["orig"], it["got_type"], it["got"],
-                            len(d.items)),
-                        dict(tags, reason=it["reason"],
-                             orig_type=it["orig_type"], field=it["field"],
-                             rtype=it["rtype"], racc=it["racc"]))
+        # the sub-check name carries the signature of the difference, so
+        # that differences with different root causes never share a bucket
+        name = "%s_%s_%s" % (stage.split("_")[0], it["reason"],
+                             it["orig_type"])
+        if it["field"] in _STRUCT_FIELDS:
+            name += "_" + it["field"]
+            if it["rtype"] is not None:
+                name += "_" + it["rtype"]
+        v = Violation(name, "%s: %s differs (%s): original %s %s, re-loaded "
+                      "%s %s [%d difference(s) in this object]" % (
+                          stage, it["path"], it["reason"], it["orig_type"],
+                          it["orig"], it["got_type"], it["got"],
+                          len(d.items)),
+                      dict(tags, stage=stage, reason=it["reason"],
+                           orig_type=it["orig_type"], field=it["field"],
+                           rtype=it["rtype"], racc=it["racc"],
+                           orig_size0=it["orig_size0"],
+                           orig_dtype=it["orig_dtype"]))
+        if _priority(it) == 0:
+            raise v
+        self.pending.append(v)
+        return False
+
+    def finish(self):
+        if self.deferred:
+            self.deferred.sort(key=_exc_suspect)
+            raise self.deferred[0]
+        if self.pending:
+            raise self.pending[0]
 
 
 def _img_params(p):
@@ -658,42 +780,32 @@ def _lib_eq(stage, a, b, tags):
                         stage, dict(tags, stage=stage))
 
 
-def _roundtrips(stage_prefix, obj, img, cls, tags, json_ok=True):
+def _roundtrips(run, stage_prefix, obj, img, cls, tags):
     """dict and JSON targets of one JsonSerializable object.  Returns the
     first-generation JSON-loaded object."""
     o1 = cls.from_dict(obj.to_dict())
-    _compare("dict_roundtrip" + stage_prefix, img(obj), img(o1), True, tags)
-    _lib_eq("dict_roundtrip" + stage_prefix, obj, o1, tags)
+    if run.compare("dict_roundtrip" + stage_prefix, img(obj), img(o1), False,
+                   tags):
+        _lib_eq("dict_roundtrip" + stage_prefix, obj, o1, tags)
     text = obj.to_json()
     if not isinstance(text, str):
         raise Violation("json_not_text", "to_json returned %r" % type(text),
                         tags)
     j1 = cls.from_json(text)
-    _compare("json_roundtrip" + stage_prefix, img(obj), img(j1), False, tags)
-    _lib_eq("json_roundtrip" + stage_prefix, obj, j1, tags)
+    if run.compare("json_roundtrip" + stage_prefix, img(obj), img(j1), False,
+                   tags):
+        _lib_eq("json_roundtrip" + stage_prefix, obj, j1, tags)
     text1 = j1.to_json()
     j2 = cls.from_json(text1)
-    _compare("json_second_generation" + stage_prefix, img(j1), img(j2), True,
-             tags)
-    _lib_eq("json_second_generation" + stage_prefix, j1, j2, tags)
+    if run.compare("json_second_generation" + stage_prefix, img(j1), img(j2),
+                   True, tags):
+        _lib_eq("json_second_generation" + stage_prefix, j1, j2, tags)
     text2 = j2.to_json()
     if _canon_json(text1) != _canon_json(text2):
         raise Violation("json_text_not_fixed_point" + stage_prefix,
                         "to_json of the 2nd generation differs from the 1st: "
                         "%s ... vs %s ..." % (text1[:200], text2[:200]), tags)
     return j1
-
-
-def _tag_exc(fn, tags):
-    """call fn(); an exception raised by the library is re-raised unchanged,
-    only annotated with the facts about the case (never swallowed)"""
-    try:
-        return fn()
-    except Violation:
-        raise
-    except Exception as exc:
-        exc.vpbt_tags = dict(tags)
-        raise
 
 
 # ----------------------------------------------------------------------------
@@ -753,6 +865,7 @@ def _check_params(case, ctx):
     tags = dict(part="params", obj="params",
                 **_flags([sp.parameters], unp_arrays))
     img0 = _img_params(sp)
+    run = Run()
 
     tmp = tempfile.mkdtemp(prefix="vpbt_c17_")
     try:
@@ -760,16 +873,16 @@ def _check_params(case, ctx):
         fn = os.path.join(tmp, "params.pickle")
         sp.save_to_pickled_file(fn)
         pk = SimulationParameters.load_from_pickled_file(fn)
-        _compare("pickle_roundtrip", img0, _img_params(pk), True, tags)
-        _lib_eq("pickle_roundtrip", sp, pk, tags)
+        if run.compare("pickle_roundtrip", img0, _img_params(pk), True, tags):
+            _lib_eq("pickle_roundtrip", sp, pk, tags)
 
         # unpacked children (first three and last three)
         children = sp.get_unpacked_params_list() if marked else []
         if marked and len(children) != nvar:
             raise Violation("children_count", "%d children, %d variations" %
                             (len(children), nvar), tags)
-        pick = sorted(set(list(range(len(children)))[:3] +
-                          list(range(len(children)))[-3:]))
+        pick = sorted(set(list(range(len(children)))[:2] +
+                          list(range(len(children)))[-1:]))
         if pick:
             ctx.label("params:children")
         for ci in pick:
@@ -777,9 +890,9 @@ def _check_params(case, ctx):
             fnc = os.path.join(tmp, "child%d.pickle" % ci)
             ch.save_to_pickled_file(fnc)
             chp = SimulationParameters.load_from_pickled_file(fnc)
-            _compare("pickle_roundtrip_child", _img_params(ch),
-                     _img_params(chp), True, tags)
-            _lib_eq("pickle_roundtrip_child", ch, chp, tags)
+            if run.compare("pickle_roundtrip_child", _img_params(ch),
+                           _img_params(chp), True, tags):
+                _lib_eq("pickle_roundtrip_child", ch, chp, tags)
             if chp.unpack_index != ci or \
                     chp.get_num_unpacked_variations() != nvar:
                 raise Violation("pickle_roundtrip_child", "unpack index %r / "
@@ -790,7 +903,8 @@ def _check_params(case, ctx):
 
         # dict + JSON
         def json_targets():
-            j1 = _roundtrips("", sp, _img_params, SimulationParameters, tags)
+            j1 = _roundtrips(run, "", sp, _img_params, SimulationParameters,
+                             tags)
             if list(j1.unpacked_parameters) != sorted(marked):
                 raise Violation("json_roundtrip", "unpacked marks %r, "
                                 "expected %r" % (j1.unpacked_parameters,
@@ -802,7 +916,7 @@ def _check_params(case, ctx):
                                 tags)
             for ci in pick:
                 ch = children[ci]
-                c1 = _roundtrips("_child", ch, _img_params,
+                c1 = _roundtrips(run, "_child", ch, _img_params,
                                  SimulationParameters, tags)
                 if c1.unpack_index != ci or \
                         c1.get_num_unpacked_variations() != nvar:
@@ -811,7 +925,8 @@ def _check_params(case, ctx):
                                         c1.unpack_index,
                                         c1.get_num_unpacked_variations(), ci,
                                         nvar), tags)
-        _tag_exc(json_targets, tags)
+        run.stage(json_targets, tags)
+        run.finish()
     finally:
         shutil.rmtree(tmp, ignore_errors=True)
 
@@ -819,6 +934,14 @@ def _check_params(case, ctx):
 # ----------------------------------------------------------------------------
 # part: results
 # ----------------------------------------------------------------------------
+def _nameable(v):
+    """arrays for which a range representation is defined: non-empty 1-D
+    int64/float32/float64 whose consecutive differences cannot overflow"""
+    return (v.ndim == 1 and v.size > 0
+            and str(v.dtype) in ("int64", "float32", "float64")
+            and bool(np.all(np.abs(v.astype(float)) < 1e15)))
+
+
 def _template(embed, ext, base="res"):
     return base + "".join("_{%s}" % n for n in embed) + ext
 
@@ -867,15 +990,47 @@ def _check_results(case, ctx):
     res_objs = [r.to_dict() for nm in s.get_result_names() for r in s[nm]]
     tags = dict(part="results", obj="results",
                 current_rep_set=case["current_rep"] != -1,
+                has_unnameable_array_param=any(
+                    isinstance(v, np.ndarray) and not _nameable(v)
+                    for v in sp.parameters.values()),
                 **_flags([sp.parameters, res_objs], unp_arrays))
 
     embed = list(case["embed"])
+    run = Run()
     tmp = tempfile.mkdtemp(prefix="vpbt_c17_")
-    try:
-        # ---- file names: deterministic function of the parameter values
-        tpl_plain = _template(embed, ".json")
+    tpl_plain = _template(embed, ".json")
+    names = {}
+    s_full = s
+    if tags["has_unnameable_array_param"]:
+        # open finding: no file name can be derived while an array that has
+        # no range representation (multi-dimensional, empty, or with
+        # differences that overflow) is among the parameters.  The call is
+        # still made on the full object (observe_full); the file targets
+        # continue on a twin without those parameters, and the exclusion is
+        # counted.
+        ctx.label("excluded:file_targets_without_unnameable_array_params")
+        s, _, _ = build()
+        for nm, v in list(s.params.parameters.items()):
+            if isinstance(v, np.ndarray) and not _nameable(v):
+                s.params.remove(nm)
+
+    def observe_full():
+        s_full.get_filename_with_replaced_params(tpl_plain)
+
+    def string_targets():
+        _roundtrips(run, "", s_full, _img_results, SimulationResults, tags)
+        # every Result on its own
+        for nm in sorted(s_full.get_result_names()):
+            for r in s_full[nm]:
+                _roundtrips(run, "_result", r, lambda x: x.to_dict(), Result,
+                            dict(tags, obj="result"))
+
+    def file_names():
+        # deterministic function of the parameter values
         name0 = s.get_filename_with_replaced_params(tpl_plain)
         s_twin, _, _ = build()
+        for nm in set(s_twin.params.parameters) - set(s.params.parameters):
+            s_twin.params.remove(nm)
         name_twin = s_twin.get_filename_with_replaced_params(tpl_plain)
         if name0 != name_twin or not isinstance(name0, str):
             raise Violation("filename_not_deterministic", "%r vs %r for "
@@ -885,8 +1040,10 @@ def _check_results(case, ctx):
             if "{%s}" % nm in name0:
                 raise Violation("filename_placeholder_left", "%r" % name0,
                                 tags)
+        names["plain"] = name0
 
-        # ---- pickle targets (explicit extension and default extension)
+    def pickle_files():
+        # explicit extension and default extension
         for ext, label in ((".pickle", "pickle"), ("", "noext")):
             tpl = os.path.join(tmp, _template(embed, ext, "res_" + label))
             fn = s.save_to_file(tpl)
@@ -898,9 +1055,9 @@ def _check_results(case, ctx):
                                                                    want_fn),
                                 tags)
             ld = SimulationResults.load_from_file(fn)
-            _compare("pickle_roundtrip_file_" + label, _img_results(s),
-                     _img_results(ld), True, tags)
-            _lib_eq("pickle_roundtrip_file_" + label, s, ld, tags)
+            if run.compare("pickle_roundtrip_file_" + label, _img_results(s),
+                           _img_results(ld), True, tags):
+                _lib_eq("pickle_roundtrip_file_" + label, s, ld, tags)
             if ld.original_filename != want_orig:
                 raise Violation("original_filename", "%r, expected %r" %
                                 (ld.original_filename, want_orig), tags)
@@ -908,44 +1065,42 @@ def _check_results(case, ctx):
             fn2 = ld.save_to_file(os.path.join(tmp, "gen2_" + label +
                                                ".pickle"))
             ld2 = SimulationResults.load_from_file(fn2)
-            img_ld = _img_results(ld)
-            _compare("pickle_second_generation", img_ld, _img_results(ld2),
-                     True, tags)
-            _lib_eq("pickle_second_generation", ld, ld2, tags)
+            if run.compare("pickle_second_generation", _img_results(ld),
+                           _img_results(ld2), True, tags):
+                _lib_eq("pickle_second_generation", ld, ld2, tags)
 
-        def json_targets():
-            s.original_filename = None
-            j1 = _roundtrips("", s, _img_results, SimulationResults, tags)
-            n1 = j1.get_filename_with_replaced_params(tpl_plain)
-            if n1 != name0:
-                raise Violation("json_filename_changed", "file name from "
-                                "the re-loaded object %r, from the original "
-                                "%r" % (n1, name0), tags)
-            # through a .json file whose name embeds parameter values
-            tpl = os.path.join(tmp, _template(embed, ".json", "res_json"))
-            fn = s.save_to_file(tpl)
-            if fn != s.get_filename_with_replaced_params(tpl) or \
-                    not os.path.isfile(fn):
-                raise Violation("file_name_returned", "save_to_file returned "
-                                "%r" % (fn,), tags)
-            jf = SimulationResults.load_from_file(fn)
-            _compare("json_roundtrip_file", _img_results(s),
-                     _img_results(jf), False, tags)
+    def json_files():
+        # through a .json file whose name embeds parameter values
+        tpl = os.path.join(tmp, _template(embed, ".json", "res_json"))
+        fn = s.save_to_file(tpl)
+        if fn != s.get_filename_with_replaced_params(tpl) or \
+                not os.path.isfile(fn):
+            raise Violation("file_name_returned", "save_to_file returned "
+                            "%r" % (fn,), tags)
+        jf = SimulationResults.load_from_file(fn)
+        clean = run.compare("json_roundtrip_file", _img_results(s),
+                            _img_results(jf), False, tags)
+        if clean:
             _lib_eq("json_roundtrip_file", s, jf, tags)
-            if jf.original_filename != tpl:
-                raise Violation("original_filename", "%r, expected %r" %
-                                (jf.original_filename, tpl), tags)
-            fn2 = jf.save_to_file(os.path.join(tmp, "gen2_json.json"))
-            jf2 = SimulationResults.load_from_file(fn2)
-            _compare("json_second_generation_file", _img_results(jf),
-                     _img_results(jf2), True, tags)
+        if jf.original_filename != tpl:
+            raise Violation("original_filename", "%r, expected %r" %
+                            (jf.original_filename, tpl), tags)
+        n1 = jf.get_filename_with_replaced_params(tpl_plain)
+        if clean and "plain" in names and n1 != names["plain"]:
+            raise Violation("json_filename_changed", "file name from the "
+                            "re-loaded object %r, from the original %r" %
+                            (n1, names["plain"]), tags)
+        fn2 = jf.save_to_file(os.path.join(tmp, "gen2_json.json"))
+        jf2 = SimulationResults.load_from_file(fn2)
+        if run.compare("json_second_generation_file", _img_results(jf),
+                       _img_results(jf2), True, tags):
             _lib_eq("json_second_generation_file", jf, jf2, tags)
-            # every Result on its own
-            for nm in sorted(s.get_result_names()):
-                for r in s[nm]:
-                    _roundtrips("_result", r, lambda x: x.to_dict(), Result,
-                                dict(tags, obj="result"))
-        _tag_exc(json_targets, tags)
+
+    try:
+        for fn in (string_targets, file_names, pickle_files, json_files,
+                   observe_full):
+            run.stage(fn, tags)
+        run.finish()
     finally:
         shutil.rmtree(tmp, ignore_errors=True)
 
